@@ -1,33 +1,25 @@
 import NbioVerif.Model.Resp
-open Resp
+import NbioVerif.Model.Own
+import NbioVerif.Model.OwnBody
+import NbioVerif.Model.Http
+import NbioVerif.DrvCommon
+/-! respdrv: line-protocol driver of the HTTP response model (harness/cmd/hresp).  See the header of
+harness/cmd/hresp/main.go for the op and result formats. -/
+open Resp Drv
 
-def hexVal (c : Char) : Nat :=
-  if c.isDigit then c.toNat - 48 else if c.toNat ≥ 97 then c.toNat - 87 else c.toNat - 55
-def unhex (s : String) : List UInt8 :=
-  let rec go : List Char → List UInt8
-    | a :: b :: r => UInt8.ofNat (hexVal a * 16 + hexVal b) :: go r
-    | _ => []
-  go s.toList
-def hexDigitC (n : Nat) : Char := if n < 10 then Char.ofNat (48 + n) else Char.ofNat (87 + n)
-def hex (b : List UInt8) : String :=
-  String.ofList (b.foldr (fun x acc => hexDigitC (x.toNat / 16) :: hexDigitC (x.toNat % 16) :: acc) [])
+def hex64 (x : UInt64) : String :=
+  String.ofList ((List.range 16).map fun i => hexDigit ((x >>> (UInt64.ofNat (60 - 4 * i))).toNat % 16))
 
-def pattern (n seed : Nat) : List UInt8 := (List.range n).map (fun i => UInt8.ofNat ((i * 7 + seed) % 256))
+def hexOrHash (b : List UInt8) : String :=
+  if b.length ≤ 96 then (if b.isEmpty then "-" else hex b) else s!"{b.length}:{hex64 (fnv b)}"
 
-def fnv (b : List UInt8) : UInt64 :=
-  b.foldl (fun h x => (h ^^^ x.toUInt64) * 1099511628211) 14695981039346656037
-
-def statusText (n : Nat) : List UInt8 :=
-  str (match n with
-    | 200 => "OK" | 201 => "Created" | 204 => "No Content" | 304 => "Not Modified"
-    | 404 => "Not Found" | 500 => "Internal Server Error" | _ => "")
-
-/-- split at first CRLFCRLF -/
+/-- split at the first CRLFCRLF -/
 def splitHead : List UInt8 → List UInt8 → (List UInt8 × List UInt8)
   | acc, 13 :: 10 :: 13 :: 10 :: r => (acc.reverse, r)
   | acc, x :: r => splitHead (x :: acc) r
   | acc, [] => (acc.reverse, [])
 
+/-- bytes.Split(b, "\r\n") -/
 def splitLines (b : List UInt8) : List (List UInt8) :=
   let rec go (cur : List UInt8) : List UInt8 → List (List UInt8)
     | 13 :: 10 :: r => cur.reverse :: go [] r
@@ -35,39 +27,226 @@ def splitLines (b : List UInt8) : List (List UInt8) :=
     | [] => [cur.reverse]
   go [] b
 
-def report (r : R) : String :=
-  let ws := r.wire.filter (· ≠ [])
-  let all := ws.flatten
-  let (head, rest) := splitHead [] all
+def sortStrs (l : List String) : List String := (l.toArray.qsort (· < ·)).toList
+
+def joinOrDash (l : List String) : String := if l.isEmpty then "-" else String.intercalate "," l
+
+/-- number of elements of `rev` before the first occurrence of "\n\r0\n\r" (reversed "\r\n0\r\n") -/
+def findRev : Nat → List UInt8 → Option Nat
+  | j, 10 :: 13 :: 48 :: 10 :: 13 :: _ => some j
+  | j, _ :: r => findRev (j + 1) r
+  | _, [] => none
+
+/-- same canonical report as `report` in harness/cmd/hresp/main.go -/
+def report (wire : List UInt8) : String :=
+  let (head, rest) := splitHead [] wire
   let lines := splitLines head
   let first := lines.headD []
-  let others := (lines.drop 1).map hex |>.toArray.qsort (· < ·) |>.toList
-  s!"F writes={ws.map (·.length)} head={hex first}|{String.intercalate "," others} restlen={rest.length} resthash={fnv rest}"
+  let others := lines.drop 1
+  let chunked := others.contains (str "Transfer-Encoding: chunked")
+  let hs := joinOrDash (sortStrs (others.map hexOrHash))
+  let (rest, trl) : List UInt8 × String :=
+    if chunked then
+      let rev := rest.reverse
+      match findRev 0 rev with
+      | some j => ((rev.drop j).reverse, joinOrDash (sortStrs ((splitLines (rev.take j).reverse).map hexOrHash)))
+      | none =>
+        if rest.take 3 == [48, 13, 10] then (rest.take 3, joinOrDash (sortStrs ((splitLines (rest.drop 3)).map hexOrHash)))
+        else (rest, "-")
+    else (rest, "-")
+  s!"head={hexOrHash first} hdr={hs} rest={rest.length}:{hex64 (fnv rest)} trl={trl}"
+
+def showW (ws : List Nat) : String :=
+  if ws.isEmpty then "-" else String.intercalate "+" (ws.map toString)
+
+/-- conn writes of one op, as the harness reports them -/
+def opWrites (before after : R) (rf : Bool) : List Nat :=
+  let seg := (after.wire.drop before.wire.length).map (·.length)
+  if rf then
+    match seg with
+    | [] => []
+    | h :: t => (if h > 0 then [h] else []) ++ (if t.sum > 0 then [t.sum] else [])
+  else seg.filter (· > 0)
+
+def showRes : WRes → String
+  | .ok n => s!"n={n} err=nil"
+  | .errCL => "n=0 err=cl"
+  | .errParse => "n=0 err=parse"
+  | .errConn => "n=0 err=conn"
+  | .errCopy n => s!"n={n} err=conn"
+  | .panic => "panic"
+
+inductive Phase | none | running | dead | done
+  deriving DecidableEq
+
+/-- body-case state: the HTTP parser model supplies what the parser does with the bytes, the request-side
+ownership twin consumes it -/
+structure BS where
+  hg : Http.Cfg
+  hp : Http.P
+  cache : List UInt8 := []
+  ps : Own.PS := {}
+  maxBody : Nat := 0
+  rl : Nat := 0
+  handler : Own.Handler := {}
+  dead : Bool := false
 
 structure DS where
   g : Cfg
   r : R
+  ph : Phase
+  o : Own.O := {}
+  b : Option BS := none
+
+/-- the tracker's capacity policy -/
+def capOf (n : Nat) : Nat := max 64 ((n + 63) / 64 * 64)
+
+def bodyCfg : Cfg :=
+  let g : Cfg := { proto := str "HTTP/1.1", proto11 := true, reqClose := false, head := fun _ => [] }
+  { g with head := headBytes g }
+
+/-- handler program "r10,c,w5" → twin handler; the response operations get their environment answers from
+the byte-level response model -/
+def mkHandler (hp : String) : Option Own.Handler :=
+  if hp == "-" then some { ops := [], fin := Own.flushEnv bodyCfg {} } else
+  let rec go (toks : List String) (r : R) (acc : List Own.HOp) : Option Own.Handler :=
+    match toks with
+    | [] => some { ops := acc.reverse, fin := Own.flushEnv bodyCfg r }
+    | t :: rest =>
+      match (t.drop 1).toString.toNat? with
+      | none => if t == "c" then go rest r (.close :: acc) else none
+      | some n =>
+        if t.startsWith "r" then go rest r (.read n :: acc)
+        else if t.startsWith "w" then
+          let e := Own.writeEnv bodyCfg r
+          go rest (write bodyCfg r (pattern n 5)).1 (.resp e (.write n) :: acc)
+        else none
+  go (hp.splitOn ",") {} []
+
+def showRd (out : List (Nat × Bool)) : String :=
+  if out.isEmpty then "-" else String.intercalate "," (out.map fun p => s!"{p.1}{if p.2 then "e" else ""}")
+
+def showPRes : Own.PRes → String
+  | .ok => "ok" | .err => "err" | .closed => "closed" | .tooLong => "toolong"
+
+def mkCfg (ws : List String) : Option Cfg := do
+  let v ← field ws "v"
+  let conn ← field ws "conn"
+  let fail ← field ws "fail"
+  let sf ← field ws "sf"
+  if v != "10" && v != "11" then none
+  let p11 := v == "11"
+  let reqClose := conn == "close" || (!p11 && conn != "ka")
+  some { proto := str (if p11 then "HTTP/1.1" else "HTTP/1.0"), proto11 := p11, reqClose := reqClose,
+         failAt := fail.toNat!, sendfile := sf == "1", head := fun _ => [] }
+
+def withHead (g : Cfg) : Cfg := { g with head := headBytes g }
 
 partial def loop (h : IO.FS.Stream) (s : DS) : IO Unit := do
   let line ← h.getLine
   if line.isEmpty then return ()
-  match line.trimAscii.toString.splitOn " " with
-  | ["C", p11, cls] =>
-    let g : Cfg := { proto := str (if p11 == "1" then "HTTP/1.1" else "HTTP/1.0"), proto11 := p11 == "1",
-                     reqClose := cls == "1", statusText := statusText, junk := 0xAA }
-    IO.println "ok"; loop h { g, r := {} }
-  | ["H", k, v] =>
-    IO.println "-"; loop h { s with r := (step s.g s.r (.setHeader (unhex k) (unhex v))).1 }
-  | ["S", c] =>
-    IO.println "-"; loop h { s with r := (step s.g s.r (.writeHeader c.toNat!)).1 }
-  | ["W", n, seed] =>
-    let (r, w) := write s.g s.r (pattern n.toNat! seed.toNat!)
-    IO.println (match w with | .ok k => s!"W {k} nil" | .errCL => "W 0 errcl" | .errParse => "W 0 errparse")
-    loop h { s with r }
-  | ["L"] => IO.println "-"; loop h { s with r := flushOp s.g s.r }
-  | ["F"] => IO.println (report (finish s.g s.r)); loop h s
+  let ws := (line.trimAscii.toString.splitOn " ").filter (· ≠ "")
+  let plain (tag : String) (op : Op) : IO Unit := do
+    match s.ph with
+    | .running =>
+      let (r, o) := step s.g s.r op
+      let rf := match op with | .readFrom .. => true | _ => false
+      -- the ownership twin runs in lockstep on the erased operation
+      let n0 := s.o.heap.trace.length
+      let (tw, two) := match Own.eraseOp s.g s.r op with
+        | some (e, top) => Own.step e s.o top
+        | none => (s.o, none)
+      let tr := if two == o || (two.isNone && o.isNone) then Own.traceSince tw.heap n0 else "!twin-desync"
+      match o with
+      | some .panic => IO.println s!"{tag} panic"; loop h { s with r, o := tw, ph := .dead }
+      | some w => IO.println s!"{tag} {showRes w} w={showW (opWrites s.r r rf)} tr={tr}"; loop h { s with r, o := tw }
+      | none => IO.println s!"{tag} w={showW (opWrites s.r r rf)} tr={tr}"; loop h { s with r, o := tw }
+    | .dead => IO.println "dead"; loop h s
+    | .done => IO.println "done"; loop h s
+    | .none => IO.println "bad-op"; loop h s
+  match ws with
+  | "C" :: "resp" :: rest =>
+    match mkCfg rest with
+    | some g => IO.println "ok"; loop h { g := withHead g, r := {}, ph := .running, o := {}, b := none }
+    | none => IO.println "bad-op"; loop h { s with ph := .none }
+  | "C" :: "body" :: rest =>
+    match field rest "maxbody", field rest "rl", (field rest "hp").bind mkHandler with
+    | some mb, some rl, some hd =>
+      let hg : Http.Cfg := { isClient := false, maxBody := mb.toNat!, urlOk := fun _ => true, protoOk := fun _ => true }
+      IO.println "ok"
+      loop h { s with ph := .none, b := some { hg, hp := Http.init hg, maxBody := mb.toNat!, rl := rl.toNat!, handler := hd } }
+    | _, _, _ => IO.println "bad-op"; loop h { s with ph := .none, b := none }
+  | "C" :: _ => IO.println "bad-op"; loop h { s with ph := .none, b := none }
+  | ["D", hx] =>
+    match s.b with
+    | none => IO.println "bad-op"; loop h s
+    | some b =>
+      if b.dead then IO.println "dead"; loop h s else
+      let data := unhex hx
+      let r := Scan.implParse (Http.machine b.hg) b.hp b.cache data []
+      let evs : List (Option Nat) := r.evs.filterMap fun ev =>
+        match ev with | .body d => some (some d.length) | .complete => some none | _ => none
+      let pres : Own.ParseRes := match r.fin with
+        | .inl (_, c) => { evs, err := false, left := c.length }
+        | .inr _ => { evs, err := true, left := 0 }
+      let n0 := b.ps.heap.trace.length
+      let (ps, res, out) := Own.parse capOf b.maxBody b.rl b.handler b.ps data.length pres
+      let cl := match ps.cache with | some (_, l) => l | none => 0
+      IO.println s!"R {showPRes res} rd={showRd out} cache={cl} tr={Own.traceSince ps.heap n0}"
+      let b := match res, r.fin with
+        | .ok, .inl (p', c') => { b with ps, hp := p', cache := c' }
+        | .closed, _ => { b with ps }
+        | _, _ => { b with ps, dead := true }
+      loop h { s with b := some b }
+  | ["X"] =>
+    match s.b with
+    | none => IO.println "bad-op"; loop h s
+    | some b =>
+      let n0 := b.ps.heap.trace.length
+      let ps := Own.closeAndClean b.ps
+      IO.println s!"X tr={Own.traceSince ps.heap n0}"
+      loop h { s with b := some { b with ps, dead := false } }
+  | "H" :: _ :: v :: rest =>
+    match field rest "ck" with
+    | some ck => plain "H" (.setHeader (payload ck) (payload v))
+    | none => IO.println "bad-op"; loop h s
+  | "A" :: _ :: v :: rest =>
+    match field rest "ck" with
+    | some ck => plain "A" (.addHeader (payload ck) (payload v))
+    | none => IO.println "bad-op"; loop h s
+  | "X" :: _ :: rest =>
+    match field rest "ck" with
+    | some ck => plain "X" (.delHeader (payload ck))
+    | none => IO.println "bad-op"; loop h s
+  | "S" :: c :: rest =>
+    match field rest "st", c.toNat? with
+    | some st, some code => plain "S" (.writeHeader code (payload st))
+    | _, _ => IO.println "bad-op"; loop h s
+  | ["W", p] => plain "W" (.write (payload p))
+  | ["WS", p] => plain "WS" (.write (payload p))
+  | ["L"] => plain "L" .flush
+  | ["RF", k, n, pat, off] =>
+    match n.toNat?, pat.toNat?, off.toNat? with
+    | some n, some pat, some off =>
+      let data := (pattern (off + n) pat).drop off
+      if k == "p" then plain "RF" (.readFrom .plain data)
+      else if k == "f" then plain "RF" (.readFrom .file data)
+      else if k == "l" then plain "RF" (.readFrom .limited data)
+      else IO.println "bad-op"; loop h s
+    | _, _, _ => IO.println "bad-op"; loop h s
+  | ["F"] =>
+    match s.ph with
+    | .running =>
+      let (r, closed) := finish s.g s.r
+      let n0 := s.o.heap.trace.length
+      let (tw, _) := Own.finish (Own.flushEnv s.g s.r) s.o
+      IO.println s!"F w={showW (opWrites s.r r false)} {report r.wire.flatten} close={if closed then 1 else 0} tr={Own.traceSince tw.heap n0}"
+      loop h { s with r, o := tw, ph := .done }
+    | .dead => IO.println "F dead"; loop h { s with ph := .done }
+    | .done => IO.println "done"; loop h s
+    | .none => IO.println "bad-op"; loop h s
   | _ => IO.println "bad-op"; loop h s
 
 def main : IO Unit := do
-  let g : Cfg := { proto := [], proto11 := true, reqClose := false, statusText := statusText, junk := 0xAA }
-  loop (← IO.getStdin) { g, r := {} }
+  let g : Cfg := { proto := [], proto11 := true, reqClose := false, head := fun _ => [] }
+  loop (← IO.getStdin) { g, r := {}, ph := .none }
